@@ -116,12 +116,44 @@ def run(ctx):
                             small = shrink(ctx, job["g"], kind, c, spec)
                             ctx.violation(sig, f"BoolCFGLM({kind}).p_next({c}) offers {sorted(got)}, viable continuations are {sorted(spec)}",
                                           {"kind": "mask", "alg": kind, "grammar": small, "original_grammar": job["g"], "context": c, "observed": sorted(got), "expected": sorted(spec)})
+    # Float-weighted copies with extreme weights: only the support may matter (underflow must not drop tokens)
+    tiny = "1/" + "1" + "0" * 200
+    jobs = []
+    for g, ge, gid, cs in plan[: (20 if quick else 200)]:
+        fg = {"S": g["S"], "nT": g["nT"], "rules": [[tiny, h, b] for w, h, b in g["rules"]]}
+        for kind in ("bool_earley", "bool_cky"):
+            jobs.append((g, fg, gid, cs, kind))
+    res = run_lm([{"g": fg, "sr": "float", "kind": kind, "ops": [["p_next", c] for c in cs]} for g, fg, gid, cs, kind in jobs], hashseed=0)
+    for (g, fg, gid, cs, kind), r in zip(jobs, res):
+        ctx.dist("float-weighted")
+        if "build_err" in r:
+            viol(ctx, f"{kind}:float-build:{r['build_err'][:30]}", f"BoolCFGLM({kind}) on a Float grammar raised {r['build_err']}", {"kind": "mask-error", "alg": kind, "sr": "float", "grammar": fg, "error": r["build_err"]})
+            continue
+        for c, q in zip(cs, r["results"]):
+            spec = set()
+            unknown = False
+            for t in range(g["nT"] + 1):
+                v = tab.get(gid, c + [t])
+                if v is None:
+                    unknown = True
+                elif v:
+                    spec.add("eos" if t == g["nT"] else str(t))
+            if unknown:
+                continue
+            ctx.count_case(("float", json.dumps(g), kind, tuple(c)), nontrivial=bool(spec))
+            if "err" in q:
+                viol(ctx, f"{kind}:float-error:{q['err'][:40]}", f"BoolCFGLM({kind}).p_next({c}) on a Float grammar raised {q['err']}", {"kind": "mask-error", "alg": kind, "sr": "float", "grammar": fg, "context": c, "error": q["err"]})
+                continue
+            got = set(q["ok"].keys())
+            if got != spec:
+                viol(ctx, f"{kind}:mask-float", f"BoolCFGLM({kind}).p_next({c}) on a Float grammar with weights 1e-200 offers {sorted(got)}, viable continuations are {sorted(spec)}",
+                     {"kind": "mask", "alg": kind, "sr": "float", "grammar": fg, "context": c, "observed": sorted(got), "expected": sorted(spec)})
     g, ge, gid, cs = plan[0]
     ctx.sample({"grammar": g, "contexts": cs[:4], "masks": [[("eos" if t == g["nT"] else t) for t in range(g["nT"] + 1) if tab.get(gid, c + [t])] for c in cs[:4]]})
 
 
 def replay(obj):
-    r = run_lm([{"g": obj["grammar"], "sr": "bool", "kind": obj["alg"], "ops": [["p_next", obj.get("context", [])]]}])[0]
+    r = run_lm([{"g": obj["grammar"], "sr": obj.get("sr", "bool"), "kind": obj["alg"], "ops": [["p_next", obj.get("context", [])]]}])[0]
     print("grammar:", json.dumps(obj["grammar"]))
     print("p_next(", obj.get("context"), ") ->", r, "expected mask:", obj.get("expected"))
     return 0
